@@ -41,6 +41,9 @@ func TestPartitionMapModel(t *testing.T) {
 		Rule: "rapid-generated logs of serialized PartitionChange entries (all six kinds, batches of 0..6 items with in-batch duplicates, updates with nil/empty/overlapping metadata) fed to the repository's own partition apply function (stand-alone state machine hook) vs the sequential map model: per-entry outcome (nil / already exists / not found; per-id error map for batches), apply never errors or panics, contents (ids, vector bits, merged metadata) and Len() equal the model after every entry, byte counter == live data; non-trivial = log has a rejected item and a later entry; label nilmeta-update-over-meta = update carrying no metadata over an item that has some; distinct = distinct case JSON",
 		Gen:  func(t *rapid.T) psm.Log { return g.Draw(t, "log") },
 		Check: func(l psm.Log, o *pbt.Obs) *pbt.Failure {
+			if psm.HasManyKeys(l) {
+				o.Label("update-whose-merged-metadata-exceeds-the-entry-limit")
+			}
 			sm := storage.VerifNewPartitionSM(psm.Meta(l))
 			m := idxsm.Model{}
 			rejectedAt := -1
@@ -52,7 +55,7 @@ func TestPartitionMapModel(t *testing.T) {
 						its = []psm.Item{e.Item}
 					}
 					for _, it := range its {
-						if old, ok := m[gen.ID(it.Id)]; ok && len(old.Meta) > 0 && len(gen.MetaShapes[it.Meta]) == 0 {
+						if old, ok := m[gen.ID(it.Id)]; ok && len(old.Meta) > 0 && len(gen.Meta(it.Meta)) == 0 {
 							o.Label("nilmeta-update-over-meta")
 						}
 					}
